@@ -242,7 +242,26 @@ def run_history(ctx, hid, spec, hist, hs):
         r.count('batch_container:' + kind)
         container = {'list': lambda: cells, 'tuple': lambda: tuple(cells), 'iter': lambda: iter(cells), 'generator': lambda: (c_ for c_ in cells),
                      'map': lambda: map(lambda c_: c_, cells), 'dict-values': lambda: {i_: c_ for i_, c_ in enumerate(cells)}.values()}[kind]()
-        o = pipeline.guarded(lambda: ex.set_cells(container), 'set_cells')
+        if step == len(hist) - 1 and len(batch) >= 2 and hrng.random() < 0.5:
+            # the last batch arrives through a CURSOR: one Cell object that the caller moves (numeric coordinates) and fills before each of
+            # several set_cells calls - every call means the cell the object names at that moment
+            from excel2pycl import Cell as _Cell
+            r.count('batches_written_through_one_moving_cell_object')
+
+            def through_cursor():
+                cur = None
+                for (s_, a_, v_, _st) in batch:
+                    rr_, cc_ = wbspec.rc(a_)
+                    v_ = _FOREIGN if isinstance(v_, str) and v_ == 'FOREIGN-BLANK' else v_
+                    if cur is None:
+                        cur = _Cell(s_, cc_ - 1, rr_ - 1, v_)
+                    else:
+                        cur.title, cur.column, cur.row, cur.value = s_, cc_ - 1, rr_ - 1, v_
+                    ex.set_cells([cur])
+                return ex
+            o = pipeline.guarded(through_cursor, 'set_cells')
+        else:
+            o = pipeline.guarded(lambda: ex.set_cells(container), 'set_cells')
         for c_ in throwaway:
             # the caller goes on using its object for something else: that is not a set_cells call
             c_.value = 'changed by the caller after the call'
